@@ -313,10 +313,7 @@ pub fn plan(prop: &str, rng: &mut Rng, hash_key: u64) -> Plan {
         "C03" => {
             // a sixth of the runs start from an imported file: another default style, fonts,
             // shared strings and style pools than a workbook made from nothing
-            // (opt-in: the first such runs raised a divergence of cell styles after cut, delete
-            // sheet and undo on an imported workbook that there was no time left to triage;
-            // VERIF_FIXTURE_INIT=1 turns these starts on for exploration)
-            if std::env::var("VERIF_FIXTURE_INIT").is_ok() && rng.chance(0.16) {
+            if rng.chance(0.16) {
                 let small: Vec<String> = crate::world::fixtures().into_iter().filter(|f| !f.contains("calc_test")).collect();
                 if !small.is_empty() {
                     init.initial = InitialWb::Fixture(rng.pick(&small).clone());
